@@ -344,55 +344,8 @@ def mean_passes_fact(repo):
         mod = parse(repo, "xrspatial/focal.py")
         loop, src, why = facts_focal.mean_loop_fact(mod)
         rep["loop"] = src if loop else "not recognised: " + why
-        f = find_func(mod, "_mean")
-        if f is None:
-            raise ValueError("_mean not found")
-        params = [a.arg for a in f.args.args]
-        if len(params) != 2 or f.args.vararg or f.args.kwarg or f.args.kwonlyargs:
-            raise ValueError("signature of _mean")
-        data, excl = params
-        if any(isinstance(n, (ast.For, ast.While, ast.ListComp, ast.GeneratorExp, ast.SetComp, ast.DictComp, ast.If,
-                              ast.IfExp, ast.Try)) for n in ast.walk(f)):
-            raise ValueError("control flow in _mean")
-        maps = [n for n in ast.walk(f) if isinstance(n, ast.Call) and call_name(n.func) == "ArrayTypeFunctionMapping"]
-        if len(maps) != 1:
-            raise ValueError("ArrayTypeFunctionMapping calls")
-        binds = local_bindings(f)
-        mnames = [k for k, vs in binds.items() if len(vs) == 1 and vs[0] is maps[0]]
-        # the selection `mapper(agg)` (or the mapping called directly), possibly bound once to a local name
-        def is_selection(n):
-            return isinstance(n, ast.Call) and len(n.args) == 1 and not n.keywords and \
-                ((isinstance(n.func, ast.Name) and n.func.id in mnames) or n.func is maps[0])
-        sel_names = [k for k, vs in binds.items() if len(vs) == 1 and is_selection(vs[0])]
-        uses = [n for n in ast.walk(f) if isinstance(n, ast.Call)
-                and (is_selection(n.func) or (isinstance(n.func, ast.Name) and n.func.id in sel_names))]
-        if len(uses) != 1:
-            raise ValueError(f"{len(uses)} calls of the selected backend function")
-        use = uses[0]
-        if use.keywords or len(use.args) != 2:
-            raise ValueError("arguments of the backend call")
-        # first argument: the data (directly, or `.data` of a DataArray built from it)
-        a0 = use.args[0]
-        wraps = [k for k, vs in binds.items() if len(vs) == 1 and isinstance(vs[0], ast.Call)
-                 and call_name(vs[0].func) == "DataArray" and len(vs[0].args) == 1 and not vs[0].keywords
-                 and isinstance(vs[0].args[0], ast.Name) and vs[0].args[0].id == data]
-        ok0 = (isinstance(a0, ast.Name) and a0.id == data) or \
-            (isinstance(a0, ast.Attribute) and a0.attr == "data" and isinstance(a0.value, ast.Name) and a0.value.id in wraps)
-        if not ok0 or not (isinstance(use.args[1], ast.Name) and use.args[1].id == excl):
-            raise ValueError("the backend is not called with (data, excludes)")
-        if len(binds.get(data, [])) or len(binds.get(excl, [])):
-            raise ValueError("parameters rebound")
-        rets = [n for n in ast.walk(f) if isinstance(n, ast.Return)]
-        if len(rets) != 1:
-            raise ValueError("returns")
-        rv = rets[0].value
-        if rv is use:
-            disp = True
-        elif isinstance(rv, ast.Name) and len(binds.get(rv.id, [])) == 1 and binds[rv.id][0] is use:
-            disp = True
-        else:
-            raise ValueError("the backend's value is not what _mean returns")
-        rep["dispatch"] = ast.unparse(use)
+        disp, dsrc, dwhy = facts_focal.mean_dispatch_fact(mod)
+        rep["dispatch"] = dsrc if disp else "not recognised: " + dwhy
     except (ValueError, OSError, SyntaxError) as ex:
         rep["error"] = str(ex)
     text = ("/-- how `focal.mean` runs its passes (see facts_dask.mean_passes_fact) -/\n"
